@@ -234,6 +234,32 @@ theorem selfdestruct_overflow_counterexample :
       total [1, 2] ovDb ovS = W + 1 ∧ total [1, 2] ovDb s' = 1 :=
   ⟨_, _, rfl, by rw [W_val]; rfl, rfl⟩
 
+/-- the three balance-moving operations change no balance but those of the two accounts they name
+(so the sum over the whole world changes exactly as the sum over any list containing them) -/
+theorem ether_ops_touch_only_named {db : Db} {r r' : Run} {op : Op} (hok : BalOk db r.js)
+    (hop : ∃ a b, opAddrs op = [a, b]) (h : step db r op = some r') {x : Addr} (hx : x ∉ opAddrs op) :
+    bal db r'.js x = bal db r.js x := by
+  cases op <;> (first | (obtain ⟨_, _, h0⟩ := hop; cases h0; done) | skip)
+  case transfer src dst v =>
+    simp only [step, Option.map_eq_some_iff] at h
+    obtain ⟨⟨s1, res⟩, h1, rfl⟩ := h
+    simp only [opAddrs, List.mem_cons, List.not_mem_nil, or_false, not_or] at hx
+    exact transfer_others hok h1 hx.1 hx.2
+  case selfdestruct a t =>
+    simp only [step, Option.map_eq_some_iff] at h
+    obtain ⟨⟨s1, res⟩, h1, rfl⟩ := h
+    simp only [opAddrs, List.mem_cons, List.not_mem_nil, or_false, not_or] at hx
+    exact selfdestruct_others h1 hx.1 hx.2
+  case create caller a hs v spec =>
+    simp only [opAddrs, List.mem_cons, List.not_mem_nil, or_false, not_or] at hx
+    simp only [step] at h
+    split at h
+    · rename_i js cp h1; cases h; exact create_others h1 hx.1 hx.2
+    · rename_i js er h1; cases h; exact create_others h1 hx.1 hx.2
+    · cases h
+
+example : ∃ a b, opAddrs (.transfer 1 2 5) = [a, b] := ⟨_, _, rfl⟩
+
 /-! ## 4. operations that do not move ether, and reverts -/
 
 /-- load*, initial_account_load, touch, inc_nonce, set_code, sload, sstore, tload, tstore, log,
@@ -249,6 +275,16 @@ example : isEtherOp (.sstore 1 0 5) = false ∧ (step exDb ⟨exS, []⟩ (.sstor
 theorem undo_entry_balances {db : Db} {sd : Bool} {s s' : JState} {e : Entry}
     (h : undoEntry sd s e = some s') : bal db s' = undoBal (bal db s) e :=
   (undoEntry_bal h).1
+
+/-- every operation followed by the undo of the balance entries it pushed (`new`, at most one)
+restores every balance exactly, hence also the sum: DESIGN A.1, per-operation lemma (b), on balances.
+`StepOk` is the local hypothesis (funded creation, fitting self-destruct credit). -/
+theorem op_then_undo_restores {db : Db} {r r' : Run} {op : Op} (hok : BalOk db r.js)
+    (hloc : StepOk db r op) (h : step db r op = some r') (hnr : ∀ i, op ≠ .revert i) :
+    ∃ new, JB r'.js = new ++ JB r.js ∧ undoAll (bal db r'.js) new = bal db r.js :=
+  step_undo_restores hok hloc h hnr
+
+example : StepOk exDb ⟨exS, []⟩ (.selfdestruct 2 1) := fun _ => by rw [W_val]; decide
 
 /-- `checkpoint_revert` conserves: with `B` the balances that undoing the whole journal restores
 (the invariant `BInv`, which every history keeps — `history_keeps_invariant`), a revert to any
